@@ -590,6 +590,8 @@ def call_native_method(I, obj, name, args, kwargs):
         if isinstance(obj, dict) and name in ("keys", "values", "items"):
             r = list(r)
         return r
+    if hasattr(obj, "sym_method"):
+        return obj.sym_method(I, name, args, kwargs)
     if isinstance(obj, SymChoice):
         if all(is_plain(a) for a in args) and not kwargs:
             def f(v):
@@ -1274,6 +1276,115 @@ def _convert(I, tname, args, kw):
         d.update(kw)
         return d
     raise Unsupported("conversion %s" % tname)
+
+
+class SymList(Sym):
+    """list of symbolic length: the first `base_len` elements are given by itemfn(j), followed by
+    the concretely appended `extra` elements.  `key` identifies the item function (two lists
+    with identical keys have the same itemfn)."""
+    is_listlike = True
+
+    def __init__(self, base_len, itemfn, key=None):
+        self.base_len = base_len
+        self.itemfn = itemfn
+        self.key = key
+        self.extra = []
+
+    def sym_len(self, I):
+        return int_add(self.base_len, len(self.extra))
+
+    def sym_item(self, I, k):
+        if not self.extra:
+            return self.itemfn(k)
+        if I.decide(cmp_op("<", k, self.base_len), "symlist-base"):
+            return self.itemfn(k)
+        for j in range(len(self.extra) - 1):
+            if I.decide(cmp_op("==", k, int_add(self.base_len, j)), "symlist-extra"):
+                return self.extra[j]
+        return self.extra[-1]
+
+    def sym_getitem(self, I, k):
+        n = self.sym_len(I)
+        if I.decide(b_or(cmp_op("<", k, 0), cmp_op(">=", k, n)), "index-range"):
+            I.raise_("IndexError", "list index out of range")
+        return self.sym_item(I, k)
+
+    def sym_method(self, I, name, args, kw):
+        if name == "append":
+            self.extra.append(args[0])
+            return None
+        if name == "clear":
+            self.base_len = 0
+            self.extra = []
+            return None
+        if name == "copy":
+            c = SymList(self.base_len, self.itemfn, self.key)
+            c.extra = list(self.extra)
+            return c
+        raise Unsupported("list.%s on a symbolic-length list" % name)
+
+    def truth(self, I):
+        return I.truth(I.py_ne(self.sym_len(I), 0))
+
+    def sym_iter(self, I):
+        n = self.sym_len(I)
+        out = []
+        k = 0
+        while I.decide(cmp_op("<", k, n), "symlist-unroll"):
+            if k > 64:
+                raise Unsupported("materialising a symbolic-length list needs an invariant / summary")
+            out.append(self.sym_item(I, k))
+            k += 1
+        return out
+
+    def same_fn(self, other):
+        if self.itemfn is other.itemfn:
+            return True
+        if self.key is None or other.key is None or len(self.key) != len(other.key):
+            return False
+        for a, b in zip(self.key, other.key):
+            if isinstance(a, (int, str)) and isinstance(b, (int, str)):
+                if a != b:
+                    return False
+            elif a is not b:
+                return False
+        return True
+
+    def sym_eq(self, I, other):
+        if isinstance(other, list):
+            n = self.sym_len(I)
+            if isinstance(n, int):
+                if n != len(other):
+                    return False
+                return b_and(*[I.py_eq(self.sym_item(I, j), other[j]) for j in range(n)])
+            if self.extra:
+                raise Unsupported("comparison of a symbolic-length list (with appended elements) with a concrete list")
+            return b_and(cmp_op("==", n, len(other)), *[I.py_eq(self.itemfn(j), other[j]) for j in range(len(other))])
+        if not isinstance(other, SymList):
+            return False
+        a, b = self, other
+        if len(a.extra) < len(b.extra):
+            a, b = b, a
+        if not a.same_fn(b):
+            if a.extra or b.extra:
+                raise Unsupported("comparison of symbolic lists with different item functions and appended elements")
+            q = z3.Int("_ql%d" % I.ctx.next_id())
+            I.pure += 1
+            try:
+                body = I.py_eq(a.itemfn(SymInt(q)), b.itemfn(SymInt(q)))
+            finally:
+                I.pure -= 1
+            n = a.sym_len(I)
+            return b_and(cmp_op("==", n, b.sym_len(I)),
+                         mk_bool(z3.ForAll([q], z3.Implies(z3.And(q >= 0, q < zi(n)), zb(body)))))
+        # a = f[0..la) ++ xs ; b = f[0..lb) ++ ys with len(xs) >= len(ys)
+        conds = [cmp_op("==", a.sym_len(I), b.sym_len(I))]
+        d = len(a.extra) - len(b.extra)
+        for j in range(d):
+            conds.append(I.py_eq(a.extra[j], b.itemfn(int_add(a.base_len, j))))
+        for j in range(len(b.extra)):
+            conds.append(I.py_eq(a.extra[d + j], b.extra[j]))
+        return b_and(*conds)
 
 
 class SymRange(Sym):
